@@ -105,8 +105,8 @@ pub const CONSTRAINTS: [(&str, &str); NC] = [
     ("tag", "optItem"),
 ];
 /// provenance domain of each constraint
-pub const PROV_DOMAIN: [&[u8]; NC] = [&[0, 1], &[0, 1], &[0, 1, 2, 3, 4], &[0, 1, 2, 3], &[0, 1, 4], &[0, 1], &[0, 1, 4], &[0, 1, 4]];
-pub const PROV_NAMES: [&str; 5] = ["inline", "alias", "merge", "alias-in-merge", "container-aliased"];
+pub const PROV_DOMAIN: [&[u8]; NC] = [&[0, 1], &[0, 1], &[0, 1, 2, 3, 4], &[0, 1, 2, 3, 5], &[0, 1, 4], &[0, 1], &[0, 1, 4], &[0, 1, 4]];
+pub const PROV_NAMES: [&str; 6] = ["inline", "alias", "merge", "alias-in-merge", "container-aliased", "struct-through-merge"];
 
 #[derive(Clone, Debug, Serialize, Deserialize)]
 pub struct Case {
@@ -241,6 +241,8 @@ pub struct Site {
     /// the alias token standing for the struct that holds the field, when that struct is an alias
     pub container_alias: Option<Vec<Step>>,
     pub through_merge: bool,
+    /// further acceptable use-site tokens (the alias inside a `<<: [*a, *b]` list)
+    pub extra_use: Vec<Vec<Step>>,
 }
 
 /// Build the document. Layout of the root mapping: defs (anchored scalars and mappings), firstName, level,
@@ -258,7 +260,9 @@ pub fn build(c: &Case) -> Built {
         }
     }
     let code_merged = c.prov[2] == 2 || c.prov[2] == 3;
-    let count_merged = c.prov[3] >= 2;
+    let count_merged = c.prov[3] == 2 || c.prov[3] == 3;
+    let deep_merged = c.prov[3] == 5;
+    let mut bm = None;
     let mut c2 = None;
     let mut c3 = None;
     let mut bi = None;
@@ -283,13 +287,24 @@ pub fn build(c: &Case) -> Built {
     }
     let use_of = |i: usize| if c.prov[i] == 1 { Node::alias(&format!("s{}", i)) } else { val(i) };
     let deep = if count_merged { Node::map(vec![(p("<<"), Node::alias("bd"))]) } else { Node::map(vec![(p("max-count"), use_of(3))]) };
+    if deep_merged {
+        // the whole nested struct `deep` reaches `inner` through a merge key
+        bm = Some(defs.len());
+        defs.push(Node::map(vec![(p("deep"), deep.clone())]).anchored("bm"));
+    }
     let mut inner_entries = Vec::new();
-    if code_merged {
-        inner_entries.push((p("<<"), Node::alias("bi")));
-    } else {
+    match (code_merged, deep_merged) {
+        (true, true) => inner_entries.push((p("<<"), Node::seq(vec![Node::alias("bi"), Node::alias("bm")]).flowed())),
+        (true, false) => inner_entries.push((p("<<"), Node::alias("bi"))),
+        (false, true) => inner_entries.push((p("<<"), Node::alias("bm"))),
+        (false, false) => {}
+    }
+    if !code_merged {
         inner_entries.push((p("code"), use_of(2)));
     }
-    inner_entries.push((p("deep"), deep));
+    if !deep_merged {
+        inner_entries.push((p("deep"), deep));
+    }
     let inner_node = Node::map(inner_entries);
     // containers
     let mut cont_def: [Option<usize>; NC] = [None; NC];
@@ -343,7 +358,7 @@ pub fn build(c: &Case) -> Built {
             }
             3 => {
                 let (a, b) = container_path(2, vec![Key("inner")]);
-                (with(a, &[Key("deep")]), b, "max-count")
+                (if deep_merged { a } else { with(a, &[Key("deep")]) }, b, "max-count")
             }
             4 => {
                 let (a, b) = container_path(4, vec![Key("items"), Idx(0)]);
@@ -359,7 +374,7 @@ pub fn build(c: &Case) -> Built {
                 (a, b, "tag")
             }
         };
-        let merged = (i == 2 && code_merged) || (i == 3 && count_merged);
+        let merged = (i == 2 && code_merged) || (i == 3 && (count_merged || deep_merged));
         let own_use = if merged { with(cont.clone(), &[Key("<<")]) } else { with(cont.clone(), &[Key(leaf)]) };
         let own_def = match (i, c.prov[i]) {
             (_, 1) => Some(d(def_scalar[i].unwrap())),
@@ -367,9 +382,14 @@ pub fn build(c: &Case) -> Built {
             (2, 3) => Some(d(c2.unwrap())),
             (3, 2) => Some(with(d(bd.unwrap()), &[Key("max-count")])),
             (3, 3) => Some(d(c3.unwrap())),
+            (3, 5) => Some(with(d(bm.unwrap()), &[Key("deep"), Key("max-count")])),
             _ => None,
         };
-        sites.push(Site { own_use, own_def, container_alias: cont_alias, through_merge: merged });
+        let mut extra_use = Vec::new();
+        if merged && code_merged && deep_merged {
+            extra_use.push(with(own_use.clone(), &[Idx(if i == 2 { 0 } else { 1 })]));
+        }
+        sites.push(Site { own_use, own_def, container_alias: cont_alias, through_merge: merged, extra_use });
     }
     Built { doc, sites }
 }
@@ -525,6 +545,9 @@ impl Prop for C18 {
                     let mut ok_use = vec![own_use];
                     if site.through_merge {
                         ok_use.push(key_of(&site.own_use));
+                    }
+                    for x in &site.extra_use {
+                        ok_use.push(at(x));
                     }
                     if let Some(ca) = &site.container_alias {
                         // the struct holding the field is itself an alias: the field is "used" at that alias token;
